@@ -90,3 +90,10 @@ Definition class_dir_ok (T : tables) (cls : Z) (e : entry) : bool :=
 
 Definition recode (f : Z -> Z) (e : entry) : entry :=
   mkentry (f (en_code e)) (en_amount e) (en_rdfi e) (en_check e) (en_trace e) (en_addenda e).
+
+(* ---- what validity of a standard batch says about one entry under its header ------------- *)
+
+Definition entry_in (T : tables) (cls : Z) (odfi : bytes) (x : entry) : Prop :=
+  class_okb T cls = true /\ bytes_eqb odfi (repeat zero 9) = false /\
+  entry_static T x = true /\ class_dir_ok T cls x = true /\
+  bytes_leb (en_trace x) [48%N] = false /\ trace_prefix KStd x = stringField odfi 8.
